@@ -76,6 +76,12 @@ def _floor_step(p):
     return 1.0 / (10 ** p)
 
 
+def near_step(v, d):
+    """v is the minimum unit 10^-d (as the code writes it: a double constant, so within 1e-9 relative of the exact step)"""
+    t = v * (10 ** d) - 1
+    return And(t <= 1e-9, t >= -1e-9)
+
+
 def h_size_reals(ctx, precision=3, zero_fee=False):
     """size_to_qty over reals: cost including fees <= capital; at most one precision step below the exact quotient"""
     from jesse import utils
@@ -85,7 +91,9 @@ def h_size_reals(ctx, precision=3, zero_fee=False):
     q = utils.size_to_qty(cap, price, precision=precision, fee_rate=fee)
     ctx.prove(q * price * (1 + fee) <= cap, 'C17:size_to_qty-cost-including-fees-within-capital', {'model': 'reals', 'precision': precision})
     exact = (cap * (1 - fee * 3) if not zero_fee else cap) / price
-    ctx.prove(And(q <= exact, exact - q < _floor_step(precision)), 'C17:size_to_qty-at-most-one-step-below-quotient', {'precision': precision})
+    # the step 10^-p is written with the integer 10^p: the double 1e-6 (or 1e-7) is slightly BELOW the exact step, which the exact-reals
+    # model can tell apart (a counterexample that no float run reproduces)
+    ctx.prove(And(q <= exact, (exact - q) * (10 ** precision) < 1), 'C17:size_to_qty-at-most-one-step-below-quotient', {'precision': precision})
     ctx.prove(q >= 0, 'C17:size_to_qty-non-negative')
     ctx.event('size-reals')
 
@@ -157,11 +165,12 @@ def h_misc_reals(ctx, decimals=2):
     ctx.prove(utils.estimate_risk(entry, stop) == sx.sabs(entry - stop), 'C17:estimate_risk-is-distance')
     x = ctx.real('x', 0, 1e6)
     r = jh.round_decimals_down(x, decimals)
-    step = 10.0 ** (-decimals)
-    ctx.prove(And(r <= x, x - r < step), 'C17:round_decimals_down-never-above-input', {'decimals': decimals, 'model': 'reals'})
+    # steps written with integer powers of ten (the double 10.0**-d is not the exact step)
+    below_step = (lambda v: v * (10 ** decimals) < 1) if decimals >= 0 else (lambda v: v < 10 ** (-decimals))
+    ctx.prove(And(r <= x, below_step(x - r)), 'C17:round_decimals_down-never-above-input', {'decimals': decimals, 'model': 'reals'})
     if decimals >= 0:
         rq = jh.round_qty_for_live_mode(np.array([x], dtype=object), decimals)[0]
-        ctx.prove(Or(rq <= x, And(rq == step, x < step)), 'C17:round_qty_for_live_mode-never-rounds-up-except-minimum-unit', {'decimals': decimals})
+        ctx.prove(Or(rq <= x, And(near_step(rq, decimals), below_step(x))), 'C17:round_qty_for_live_mode-never-rounds-up-except-minimum-unit', {'decimals': decimals})
     a = ctx.real('a', -1e6, 1e6)
     b = ctx.real('b', -1e6, 1e6)
     ctx.prove(And(utils.sum_floats(a, b) == a + b, utils.subtract_floats(a, b) == a - b), 'C17:decimal-helpers-add-and-subtract')
